@@ -533,6 +533,11 @@ class C19Run(qsrun.QsRun):
             return {"channel": "makezip", "jobid": f"{cid}:makezip", "timeout": rng.choice([60, 1200])}
         return {"channel": "render", "jobid": f"{cid}:render-{rng.choice(c['writers'])}", "timeout": rng.choice([60, 1200])}
 
+    def _motif_new_add(self, timeout):
+        unused = [x for x in self.config["jobids"] if x not in self.model.jobs and ":render-" in x]
+        jid = self.rng.choice(unused or [x for x in self.config["jobids"] if ":render-" in x])
+        return {"channel": "render", "jobid": jid, "timeout": timeout}
+
     def g_finish(self, sendable, live, deadc):
         st = qsrun.QsRun.g_finish(self, sendable, live, deadc)
         rng = self.rng
@@ -563,6 +568,14 @@ class C19Run(qsrun.QsRun):
 
     def g_jump(self, sendable, live, deadc):
         return ["jump", self.rng.choice([61, 1201, 1201, 3601, 3700, 11])]
+
+    def generate(self):
+        qsrun.QsRun.generate(self)
+        if self.config.get("late_final"):
+            # the history ends some time later: jobs whose deadline passed meanwhile have timed out
+            self.do(["jump", self.config["late_final"]])
+            self.do(["adv", 2])
+            self.do(["run"])
 
     def epilogue(self, probe=True, drain=True):
         # let every application call finish: release parked RPCs one at a time
@@ -635,6 +648,7 @@ def draw_run(seed, prop, i, allow_restart=False):
     cfg["p_poll"] = rng.choice([0.1, 0.2, 0.3])
     cfg["p_status"] = rng.choice([0.5, 0.8])
     cfg["two_qserves"] = faults and rng.random() < 0.4
+    cfg["late_final"] = rng.choice([70, 130, 700, 1300, 4000]) if (faults and rng.random() < 0.3) else None
     w = cfg["weights"]
     w["add"] = rng.choice([0, 1])
     w["addwait"] = 0
